@@ -1511,3 +1511,62 @@ func TestGocvReplay(t *testing.T) {
 	}
 }
 `
+
+// ---------------------------------------------------------------------------
+// drivers: (*startEvent).ConsumeEvent / (*throwEvent).ConsumeEvent (C11) — the twins of the catch event's delivery
+// block: the node's loop is started by its first trigger or token only, its inbox has one slot (no incoming flows).
+
+func init() {
+	for _, kind := range []string{"startEvent", "throwEvent"} {
+		kind := kind
+		registerReplay(replayDriver{
+			modelFree: true,
+			name:      "bpmn." + kind + ".ConsumeEvent on a node that was never triggered",
+			match: func(ob *Oblig) bool {
+				return ob.Class == "blocking" && strings.HasPrefix(ob.Func, "bpmn.(*"+kind+").ConsumeEvent")
+			},
+			build: func(ob *Oblig, m map[string]string) (string, string, bool) {
+				ctor := "newStartEvent(&wiring{eventEgress: gocvReplaySource{}}, &schema.StartEvent{}, nil)"
+				if kind == "throwEvent" {
+					ctor = "newThrowEvent(&wiring{eventEgress: gocvReplaySource{}}, &schema.ThrowEvent{}, nil)"
+				}
+				src := fmt.Sprintf(`package bpmn
+
+import (
+	"testing"
+	"time"
+
+	"github.com/olive-io/bpmn/schema"
+	"github.com/olive-io/bpmn/v2/pkg/event"
+)
+
+type gocvReplaySource struct{}
+
+func (gocvReplaySource) RegisterEventConsumer(event.IConsumer) error { return nil }
+
+// generated by gocv for obligation %s
+func TestGocvReplay(t *testing.T) {
+	evt, err := %s
+	if err != nil {
+		t.Fatal(err)
+	}
+	// the node has not been triggered or reached: its goroutine is not running
+	for i := 1; i <= 4; i++ {
+		done := make(chan struct{})
+		go func() {
+			evt.ConsumeEvent(event.NewSignalEvent("s"))
+			close(done)
+		}()
+		select {
+		case <-done:
+		case <-time.After(time.Second):
+			t.Fatalf("delivery number %%d to a %s that was never triggered did not return within a second", i)
+		}
+	}
+}
+`, ob.Name, ctor, kind)
+				return ".", src, true
+			},
+		})
+	}
+}
